@@ -890,6 +890,24 @@ fn probes(out: &mut Out) {
             }
         }
         out.count("probes");
+        // the public entry point `cedar_policy::Validator::validate_with_level` (a thin wrapper) must agree
+        {
+            use std::str::FromStr;
+            let pub_schema = cedar_policy::Schema::from_cedarschema_str(text).map(|x| x.0);
+            let pub_ps = cedar_policy::PolicySet::from_str(&src);
+            if let (Ok(sc), Ok(pp)) = (pub_schema, pub_ps) {
+                let v = cedar_policy::Validator::new(sc);
+                for n in 0..=MAX_LEVEL {
+                    let passed = v.validate_with_level(&pp, cedar_policy::ValidationMode::Strict, n).validation_passed();
+                    out.count("public_api_verdicts");
+                    if passed != (verdicts[n as usize] == "ok") {
+                        out.propfail("public validate_with_level disagrees with the core validator", &format!("probe policy=`{src}` level={n}"), &verdicts[n as usize]);
+                    }
+                }
+            } else {
+                out.propfail("probe does not load through the public API", &format!("probe policy=`{src}`"), "");
+            }
+        }
         if min != *expect {
             out.propfail("probe: required level differs from the documented one", &format!("probe policy=`{src}`"), &format!("expected {expect:?} got {min:?} ({})", verdicts.join(" ")));
         }
